@@ -120,6 +120,13 @@ class Builtins:
             return self.ctx.opaque_method(I, args[0], name[len('extattr:'):], args[1:], kwargs, node)
         if name.startswith('object.'):
             return NONE
+        if name.startswith('exc.'):
+            # a getter of an exception object (e.getName(), e.getIdentityKey()): a function of the exception
+            e = args[0]
+            if not hasattr(e, 't'):
+                e.t = I.fresh('exc', T.Obj)
+            f = self.ctx.uf('getter.exc.' + name[4:], T.Obj, T.Obj)
+            return VOpaque(f(e.t), 'excfield')
         for pl in self.ctx.plugins:
             r = pl.call(I, name, args, kwargs, node) if hasattr(pl, 'call') else NotImplemented
             if r is not NotImplemented:
